@@ -35,6 +35,8 @@ func vfErrClass(class string) error {
 	switch class {
 	case "sys":
 		return &os.SyscallError{Syscall: "vfcall", Err: syscall.ENOBUFS}
+	case "unreach": // the destination cannot be reached (off-link / spoofed solicitor)
+		return &os.SyscallError{Syscall: "vfcall", Err: syscall.EHOSTUNREACH}
 	case "perm":
 		return &os.SyscallError{Syscall: "vfcall", Err: syscall.EPERM}
 	case "permplain":
